@@ -280,6 +280,19 @@ def project_record_compiled(rec, cfg, rngidx):
                 row["out_h"] = int(onp.asarray(s.output.h)[j])
             if s.rng is not None and seq[j] >= 0 and rngidx is not None:
                 row["rngi"] = rngidx.idx(k, tuple(int(v) for v in onp.asarray(s.rng)[j].reshape(-1)))
+            if s.inputs is not None and seq[j] >= 0:
+                # the recorded input windows of this step (keyed by sender, like the probe log)
+                imap = trace.input_name_map(cfg)
+                wins = {}
+                for iname, inp in s.inputs.items():
+                    src = imap[k][iname].split(">")[0]
+                    W = onp.asarray(inp.seq).shape[1]
+                    v = dict(seq=[int(x) for x in onp.asarray(inp.seq)[j]], ts_sent=[to_grid(x) for x in onp.asarray(inp.ts_sent)[j]],
+                             ts_recv=[to_grid(x) for x in onp.asarray(inp.ts_recv)[j]], nid=[int(x) for x in onp.asarray(inp.data.nid)[j]],
+                             eps=[int(x) for x in onp.asarray(inp.data.eps)[j]], dseq=[int(x) for x in onp.asarray(inp.data.seq)[j]],
+                             h=[int(x) for x in onp.asarray(inp.data.h)[j]])
+                    wins[src] = trace.win_entries(v)[-W:]
+                row["wins"] = wins
             rows.append(row)
         out[k] = rows
     return out
